@@ -14,7 +14,7 @@
    proof (Proofs/VerifierSound.v); [infer] merely proposes the annotation.
 
    Definitions only. *)
-From Verif Require Import Lib.Base Model.Ast Model.Instr Model.Compiler.
+From Verif Require Import Lib.Base Model.Ast Model.Instr Model.Compiler Gen.Panics.
 
 (* ---- what the pass knows about the surroundings of a code unit -------------- *)
 
@@ -116,13 +116,14 @@ Definition flow_of (cx : vctx) (i : instr) : flow :=
   | ICallLengthArray sc _ => fnext_if (array_scope_ok sc) 0 1
   | ICallSplit sc _ => fnext_if (array_scope_ok sc) 1 1
   | ICallSplitSep sc _ _ => fnext_if (array_scope_ok sc) 2 1
-  | ICallSprintf n => fnext_if (0 <=? n) n 1
+  | ICallSprintf n => fnext_if (1 <=? n) n 1                (* vm.go reads args[0]: the format *)
   | ICallUser fi arrs => if forallb (fun a => array_scope_ok (fst a)) arrs then FCall fi else FBad
   | ICallNative _ n => fnext_if (0 <=? n) n 1
   | IReturn => FRet 1
   | IReturnNull => FRet 0
   | INulls n => fnext_if (0 <=? n) 0 n
-  | IPrint n r | IPrintf n r => fnext_if (0 <=? n) (n + redir_pops r) 0
+  | IPrint n r => fnext_if (0 <=? n) (n + redir_pops r) 0
+  | IPrintf n r => fnext_if (1 <=? n) (n + redir_pops r) 0  (* vm.go reads args[0]: the format *)
   | IGetline r => FNext (redir_pops r) 1
   | IGetlineField r => FNext (redir_pops r + 1) 1
   | IGetlineVar sc r n => fnext_if (var_ok cx sc n) (redir_pops r) 1
@@ -336,6 +337,12 @@ Definition check_program_limits (L0 : limits) (p : cprogram) : bool :=
   forallb (fun a => forallb (check_limits L) (fst a) &&
                     match snd a with Some b => check_limits L b | None => true end) (c_actions p) &&
   check_limits L (c_end p).
+
+(* the limits of a program: table sizes as dumped by the implementation, ast.V_LAST from the
+   regenerated Gen/Panics.v *)
+Definition program_limits (nglobals ngarrays nnums nstrs nregexes nnatives : Z) : limits :=
+  {| lm_globals := nglobals; lm_garrays := ngarrays; lm_larrays := 0; lm_specials := numSpecials;
+     lm_nums := nnums; lm_strs := nstrs; lm_regexes := nregexes; lm_natives := nnatives; lm_funcs := [] |}.
 
 (* ---- one-byte RS: the only MustCompile on run-time data (interp.go setSpecial V_RS) ---- *)
 
